@@ -9,4 +9,95 @@ HARNESSES = [
          unwind=6, backends=["default", "kissat", "z3"], witness_per_config=True,
          bound="first data block 0/1, blocks per group 8..65528, group < 2^16, block < 2^48: all symbolic"),
 ]
+HARNESSES += [
+    dict(name="featedit", src="featedit.c",
+         funcs=["e2p_edit_feature2", "e2p_string2feature", "skip_over_word", "skip_over_blanks"],
+         configs=[{"TOK": t} for t in range(1, 15)] +
+                 [{"TOK": 7, "NO_CLR": None}, {"TOK": 7, "NO_OK": None, "NO_CLR": None}, {"TOK": 8, "NO_OK": None}],
+         unwind=8, unwindset=["e2p_string2feature.0:70", "strcasecmp.0:24", "strncasecmp.0:10", "skip_over_word.0:24",
+                              "skip_over_blanks.0:4", "e2p_edit_feature2.0:5", "strlen.0:40", "strcpy.0:40"],
+         backends=["default"], witness_per_config=True,
+         bound="14 concrete request strings (single names, ^ - + prefixes, FEATURE_Xn names, lists of 2-3 names with , blank and tab "
+               "separators, unknown names, none); feature words, ok mask, clear-ok mask: all 2^288 values; with / without masks"),
+]
+HARNESSES += [
+    dict(name="featnames", src="featnames.c",
+         funcs=["e2p_string2feature", "e2p_feature2string", "e2p_feature_to_string"],
+         configs=[{"WORD": 0, "UPPER": None}, {"WORD": 1}, {"WORD": 2}] +
+                 [{"WORD": 1, "UPPER": None, "_tier": "thorough"}, {"WORD": 2, "UPPER": None, "_tier": "thorough"},
+                  {"WORD": 2, "SYMBOLIC_BIT": None, "_tier": "thorough"}],
+         unwind=8, unwindset=["e2p_string2feature.0:70", "e2p_feature_to_string.0:70", "e2p_feature_to_string.1:33", "strcasecmp.0:24",
+                              "strncasecmp.0:10", "strncpy.0:24", "sprintf.0:17", "main.0:34", "main.1:40", "main.2:40",
+                              "vf_roundtrip.0:24", "vf_roundtrip.1:24", "vf_numeric.0:10", "vf_named.0:24", "strtol.0:4"],
+         backends=["default"], cbmc_flags=["--object-bits", "12"],
+         bound="all 3 x 32 (word, bit) pairs, 36 documented names, FEATURE_<C|I|R>0..32"),
+]
+def dt_uw(bs):
+    n = bs // 4 + 1
+    return ["main.%d:%d" % (i, bs + 2) for i in range(14)] + ["vf_scan.0:%d" % n, "vf_scan.1:%d" % n, "vf_same_entry.0:%d" % (bs + 1),
+            "rewrite_dir_block.0:%d" % (bs // 12 + 2), "ext2fs_read_dir_block4.0:%d" % (bs + 1), "ext2fs_write_dir_block4.0:%d" % (bs + 1),
+            "memset.0:13"]
+
+HARNESSES += [
+    dict(name="dirtail", src="dirtail.c", extra_src=["lib/ext2fs/csum.c", "lib/ext2fs/dir_iterate.c"],
+         funcs=["rewrite_dir_block", "request_dir_fsck_afterwards", "ext2fs_get_rec_len", "ext2fs_set_rec_len", "ext2fs_initialize_dirent_tail"],
+         stubs=["ext2fs_read_dir_block4", "ext2fs_write_dir_block4", "gettext", "puts", "printf", "fprintf", "fputs"],
+         configs=[{"BS": 48, "CSUM": 1, "PRE_TAIL": 0, "_unwindset": dt_uw(48)},
+                  {"BS": 48, "CSUM": 0, "PRE_TAIL": 1, "_unwindset": dt_uw(48)},
+                  {"BS": 48, "CSUM": 1, "PRE_TAIL": 1, "_unwindset": dt_uw(48)},
+                  {"BS": 48, "CSUM": 0, "PRE_TAIL": 0, "_unwindset": dt_uw(48)},
+                  {"BS": 48, "CSUM": 1, "PRE_TAIL": 0, "HTREE_LEAF": None, "_unwindset": dt_uw(48)},
+                  {"BS": 40, "CSUM": 1, "PRE_TAIL": 0, "_unwindset": dt_uw(40)},
+                  {"BS": 64, "CSUM": 1, "PRE_TAIL": 0, "_unwindset": dt_uw(64), "_tier": "thorough"},
+                  {"BS": 64, "CSUM": 0, "PRE_TAIL": 1, "_unwindset": dt_uw(64), "_tier": "thorough"}],
+         unwind=4, backends=["default", "kissat"], witness_per_config=True,
+         bound="one leaf block of 40 / 48 (thorough: 64) bytes, every byte symbolic under well-formedness; s_state symbolic"),
+    dict(name="dxlimit", src="dirtail.c", defs=["KIND=1"], extra_src=["lib/ext2fs/csum.c", "lib/ext2fs/dir_iterate.c"],
+         funcs=["rewrite_dir_block", "request_dir_fsck_afterwards", "ext2fs_get_dx_countlimit", "__get_dx_countlimit"],
+         stubs=["ext2fs_read_dir_block4", "ext2fs_write_dir_block4", "gettext", "puts", "printf", "fprintf", "fputs"],
+         configs=[{"BS": 48, "CSUM": 1, "PRE_TAIL": 0, "_unwindset": dt_uw(48)},
+                  {"BS": 48, "CSUM": 0, "PRE_TAIL": 1, "_unwindset": dt_uw(48)},
+                  {"BS": 48, "CSUM": 1, "PRE_TAIL": 1, "_unwindset": dt_uw(48)},
+                  {"BS": 48, "CSUM": 0, "PRE_TAIL": 0, "_unwindset": dt_uw(48)}],
+         unwind=4, backends=["default", "kissat"], witness_per_config=True,
+         bound="one htree interior node of 48 bytes (up to 5 index entries), every byte symbolic under well-formedness"),
+]
+def it_uw(ng, ipg, old, new, bsz, nblk):
+    newb = (ipg * new + bsz - 1) // bsz
+    return ["main.%d:%d" % (i, max(nblk * bsz, newb * bsz) + 2) for i in range(12)] + \
+        ["expand_inode_table.0:%d" % (ipg + 1), "expand_inode_table.1:%d" % (ng + 1),
+         "io_channel_read_blk64.0:%d" % (newb * bsz + 1), "io_channel_read_blk64.1:%d" % (nblk + 1),
+         "io_channel_write_blk64.0:%d" % (newb * bsz + 1), "io_channel_write_blk64.1:%d" % (nblk + 1)]
+
+HARNESSES += [
+    dict(name="itable", src="itable.c", extra_src=["lib/ext2fs/blknum.c"],
+         funcs=["expand_inode_table", "ext2fs_inode_table_loc"],
+         stubs=["io_channel_read_blk64", "io_channel_write_blk64", "ext2fs_free_inode_cache", "gettext", "puts", "printf", "fprintf", "fputs"],
+         configs=[{"NG": 2, "IPG": 4, "OLD": 8, "NEW": 16, "BSZ": 16, "NBLK": 12, "_unwindset": it_uw(2, 4, 8, 16, 16, 12)},
+                  {"NG": 2, "IPG": 4, "OLD": 8, "NEW": 32, "BSZ": 32, "NBLK": 10, "_unwindset": it_uw(2, 4, 8, 32, 32, 10)},
+                  {"NG": 1, "IPG": 8, "OLD": 4, "NEW": 8, "BSZ": 16, "NBLK": 6, "_unwindset": it_uw(1, 8, 4, 8, 16, 6)},
+                  {"NG": 3, "IPG": 4, "OLD": 8, "NEW": 16, "BSZ": 16, "NBLK": 16, "_unwindset": it_uw(3, 4, 8, 16, 16, 16), "_tier": "thorough"}],
+         unwind=4, backends=["default", "kissat"], witness_per_config=True,
+         bound="1..2 (thorough 3) groups x 4..8 inodes, inode size 8 -> 16 / 8 -> 32 / 4 -> 8 bytes (the function is size-agnostic), 16 / 32-byte blocks, "
+               "device of 6..16 blocks: every device byte, every table placement, every single I/O fault"),
+]
+T2F_STUBS = ["gettext", "puts", "printf", "fprintf", "fputs"]
+HARNESSES += [
+    dict(name="featureset", src="featureset.c", extra_src=["lib/e2p/feature.c"], defs=["__NO_CTYPE=1"],
+         cut_statics={"misc/tune2fs.c": ["remove_journal_inode", "remove_journal_device", "enable_uninit_bg", "disable_uninit_bg",
+                                         "has_casefold_inode"]},
+         funcs=["update_feature_set", "check_fsck_needed", "request_fsck_afterwards", "e2p_edit_feature2", "e2p_string2feature"],
+         stubs=T2F_STUBS + ["ext2fs_read_bitmaps", "ext2fs_truncate_orphan_file", "ext2fs_inode_alloc_stats2", "ext2fs_default_orphan_file_blocks",
+                            "ext2fs_mmp_init", "ext2fs_mmp_read", "ext2fs_block_alloc_stats2", "uuid_is_null", "uuid_generate",
+                            "e2p_get_encoding_flags", "ext2fs_crc32c_le", "ext2fs_update_dynamic_rev", "ext2fs_check_desc",
+                            "proceed_question", "getenv", "isatty", "access", "remove_journal_inode", "remove_journal_device",
+                            "enable_uninit_bg", "disable_uninit_bg", "has_casefold_inode"],
+         configs=[{"REQ": r} for r in range(1, 18)],
+         unwind=8, unwindset=["e2p_string2feature.0:70", "e2p_feature_to_string.0:70", "e2p_feature_to_string.1:33", "strcasecmp.0:24",
+                              "strncasecmp.0:10", "skip_over_word.0:24", "skip_over_blanks.0:4", "e2p_edit_feature2.0:5",
+                              "strlen.0:40", "strcpy.0:40", "strncpy.0:24", "update_feature_set.0:4", "update_feature_set.1:4", "main.0:4"],
+         backends=["default"], witness_per_config=True, cbmc_flags=["--object-bits", "10"],
+         bound="17 concrete -O requests; the three feature words, s_state, s_lastcheck, s_mtime, mount state (mounted / read-only / busy), "
+               "number of -f, journal inode / device numbers, stored and live checksum seed, -J size, -Q given: all symbolic"),
+]
 MANIFEST = {"text": "", "note": ""}
